@@ -42,7 +42,7 @@ CSS_ALPHA_SPELLINGS = ("rgba", "hsla", "rgb4", "rgb_slash")
 # spellings the library accepts whose exact reading is the library's own business (used where the reference is the
 # same call in a pristine process, never where an independent reader has to know the colour)
 EXOTIC_API_SPELLINGS = ("tuple_strs", "tuple_pct", "tuple_float", "tuple01", "paren", "rgb_space", "spaces", "padded", "barehexU",
-                        "hsl_tuple", "rgba_pct", "mixedcase_fn", "list_float", "tuple_bool", "fn_gap", "fn_colon", "rgba_gap", "hsla_gap")
+                        "hsl_tuple", "rgba_pct", "mixedcase_fn", "list_float", "tuple_bool", "fn_gap", "fn_colon", "rgba_gap", "hsla_gap", "name_spaced")
 
 
 def spell(rng, rgb, kinds=CSS_SPELLINGS):
@@ -104,6 +104,13 @@ def spell(rng, rgb, kinds=CSS_SPELLINGS):
         return (round(h * 360.0, 1) or 2.0, round(s_, 3), round(l, 3)), k
     if k == "rgba_pct":
         return "rgba(%d%%, %d%%, %d%%, %s)" % (round(rgb[0] * 100 / 255), round(rgb[1] * 100 / 255), round(rgb[2] * 100 / 255), rng.choice(("50%", "100%", "0.5", "1"))), k
+    if k == "name_spaced":
+        # CSS names written the way people say them ("dark gray", "Light-Grey"); invalid for the library today
+        for pre in ("dark", "light", "medium", "pale", "deep", "hot", "lime", "sea", "sky", "slate", "spring", "steel", "royal", "midnight"):
+            for n in _NAMES_BY_RGB.get(tuple(rgb), ()):
+                if n.startswith(pre) and len(n) > len(pre):
+                    return rng.choice(("%s %s", "%s-%s", "%s_%s", "%s  %s")) % (pre, n[len(pre):]), k
+        return rng.choice(("dark gray", "light grey", "Dark Blue", "sky blue", "slate-gray")), k
     if k == "fn_gap":
         return rng.choice(("rgb (%d, %d, %d)", "RGB  (%d,%d,%d)")) % rgb, k
     if k == "fn_colon":
